@@ -100,7 +100,7 @@ def table_params(doms, tier, hard=True):
         cells *= len(d)
     if tier == "quick":
         return {1: dict(L=3, W=3), 2: dict(L=2, W=2 if cells <= 6 else 1), 3: dict(L=1 if cells <= 8 and hard else 0, W=1)}[nf]
-    return {1: dict(L=3, W=3), 2: dict(L=3 if cells <= 6 else 2, W=2), 3: dict(L=2, W=1 if cells > 12 else 2)}[nf]
+    return {1: dict(L=3, W=3), 2: dict(L=2 if cells <= 9 else 1, W=2), 3: dict(L=2 if cells <= 8 else 1, W=1)}[nf]
 
 
 def make_tables(rng, tier):
@@ -115,7 +115,7 @@ def make_tables(rng, tier):
         tables.append(dict(doms=doms, **table_params(doms, tier, hard)))
     for t in TEMPLATES:
         add(t)
-    n_rand = {1: 6, 2: 10, 3: 4} if tier == "quick" else {1: 30, 2: 60, 3: 40}
+    n_rand = {1: 4, 2: 7, 3: 3} if tier == "quick" else {1: 30, 2: 36, 3: 16}
     maxd = 3 if tier == "quick" else 4
     for nf, n in n_rand.items():
         target = len(tables) + n
@@ -195,7 +195,7 @@ def shape_of(tr):
     if sel["k"] != "tup":
         return cls[0]
     adv = [i for i, c in enumerate(cls) if c in ("K", "L", "L0")]
-    if any(c in ("L", "L0") for c in cls) and len(adv) >= 2 and all(c in ("K", "L", "L0", ":", "...") for c in cls) and any(
+    if not tr["strict"] and any(c in ("L", "L0") for c in cls) and len(adv) >= 2 and all(c in ("K", "L", "L0", ":", "...") for c in cls) and any(
             cls[j] in (":", "...") for a, b in zip(adv, adv[1:]) for j in range(a + 1, b)):
         return "tup(key+slice+list)"
     if "T" in cls:
@@ -247,6 +247,19 @@ def build(cls, doms, labeling, container):
     raise ValueError(cls)
 
 
+def build_from_dict(cls, doms, labeling):
+    """The dictionary constructors of the MDP tables (the action order of the result is up to the code)."""
+    from msdm.core.mdp.tables import StateTable, StateActionTable
+    from msdm.core.mdp.tabularpolicy import TabularPolicy
+    pd = [[conc(v, labeling) for v in d] for d in doms]
+    if cls == "StateTable":
+        return StateTable.from_dict({s: float(i) for i, s in enumerate(pd[0])})
+    k = {"StateActionTable": StateActionTable, "TabularPolicy": TabularPolicy}[cls]
+    n = len(pd[1])
+    return k.from_dict({s: {a: float(i * n + j) for j, a in enumerate(pd[1])} for i, s in enumerate(pd[0])},
+                       default_value=-1.0)
+
+
 def family(e):
     from msdm.core.table.tableindex import DomainError, SliceError
     from msdm.core.mdp.tables import StateActionIndexError
@@ -289,6 +302,17 @@ def is_table(x):
     return isinstance(x, AbstractTable)
 
 
+def srepr(x):
+    """repr that does not depend on the hash seed (frozensets are printed sorted)."""
+    if isinstance(x, frozenset):
+        return "frozenset({" + ", ".join(sorted(srepr(e) for e in x)) + "})"
+    if isinstance(x, tuple):
+        return "(" + ", ".join(srepr(e) for e in x) + ("," if len(x) == 1 else "") + ")"
+    if isinstance(x, list):
+        return "[" + ", ".join(srepr(e) for e in x) + "]"
+    return repr(x)
+
+
 def same_label(a, b):
     if isinstance(a, tuple) and isinstance(b, tuple):
         return len(a) == len(b) and all(same_label(x, y) for x, y in zip(a, b))
@@ -314,7 +338,7 @@ def table_matches(r, doms, cells, labeling, cache=None):
     real_doms = r.table_index.field_domains
     if len(real_doms) != len(exp_doms) or any(
             len(a) != len(b) or not all(same_label(x, y) for x, y in zip(a, b)) for a, b in zip(real_doms, exp_doms)):
-        return ("wrong-index", f"index domains {[tuple(d) for d in real_doms]} expected {exp_doms}")
+        return ("wrong-index", f"index domains {srepr([tuple(d) for d in real_doms])} expected {srepr(exp_doms)}")
     data = r.__array__()
     if data.shape != exp.shape or not np.array_equal(data, exp):
         return ("wrong-cells", f"cells {np.asarray(data).tolist()} expected {exp.tolist()}")
@@ -435,7 +459,7 @@ def check_dist(ctx, fail, row, dom, entries, labeling, where):
     st, sup = call(lambda: list(row.support))
     ctx.evaluations += 1
     if st == "err" or len(sup) != len(exp_dom) or not all(any(same_label(x, y) for y in exp_dom) for x in sup):
-        fail("dist", f"{where}: support {sup} is not the row domain {exp_dom}")
+        fail("dist", f"{where}: support {srepr(sup)} is not the row domain {srepr(exp_dom)}")
         return
     if not all(same_label(x, y) for x, y in zip(sup, exp_dom)):
         ctx.drift("dist-support-order", {"support": repr(sup), "domain": repr(exp_dom)})
@@ -443,13 +467,13 @@ def check_dist(ctx, fail, row, dom, entries, labeling, where):
         st, q = call(lambda: row.prob(e))
         ctx.evaluations += 1
         if st == "err" or not num_eq(q, p):
-            fail("dist", f"{where}: prob({e!r}) = {q!r}, entry is {p}")
+            fail("dist", f"{where}: prob({srepr(e)}) = {str(q)[:60]}, entry is {p}")
             return
     st, items = call(lambda: list(row.items()))
     ctx.evaluations += 1
     if st == "err" or len(items) != len(exp_dom) or not all(
             same_label(k, e) and num_eq(v, p) for (k, v), e, p in zip(items, exp_dom, entries)):
-        fail("dist", f"{where}: items {items!r} are not (domain, entries) {list(zip(exp_dom, entries))!r}")
+        fail("dist", f"{where}: items() are not the (domain, entries) pairs {srepr(list(zip(exp_dom, entries)))}")
         return
     st, n = call(lambda: len(row))
     if st == "err" or n != len(exp_dom):
@@ -470,11 +494,11 @@ def check_iface(ctx, fail, obj, doms, cells, labeling, where):
     st, keys = call(lambda: list(obj.keys()))
     ctx.evaluations += 1
     if st == "err" or len(keys) != len(exp_keys) or not all(same_label(a, b) for a, b in zip(keys, exp_keys)):
-        fail("keys", f"{where}: keys() = {keys!r}, outer domain is {exp_keys!r}")
+        fail("keys", f"{where}: keys() = {srepr(keys)}, outer domain is {srepr(exp_keys)}")
         return
     st, it = call(lambda: list(iter(obj)))
     if st == "err" or len(it) != len(exp_keys) or not all(same_label(a, b) for a, b in zip(it, exp_keys)):
-        fail("keys", f"{where}: iteration gives {it!r}, outer domain is {exp_keys!r}")
+        fail("keys", f"{where}: iteration gives {srepr(it)}, outer domain is {srepr(exp_keys)}")
         return
     st, n = call(lambda: len(obj))
     ctx.evaluations += 1
@@ -485,12 +509,12 @@ def check_iface(ctx, fail, obj, doms, cells, labeling, where):
     ctx.evaluations += 1
     st2, vals = call(lambda: list(obj.values()))
     if st == "err" or st2 == "err" or len(items) != len(exp_keys) or len(vals) != len(exp_keys):
-        fail("items", f"{where}: items()/values() failed or have the wrong length: {items!r}")
+        fail("items", f"{where}: items()/values() failed or have the wrong length")
         return
     for i, ((k, sub), val) in enumerate(zip(items, vals)):
         block = cells[i * inner:(i + 1) * inner]
         if not same_label(k, exp_keys[i]):
-            fail("items", f"{where}: items() key {k!r} at position {i}, expected {exp_keys[i]!r}")
+            fail("items", f"{where}: items() key {srepr(k)} at position {i}, expected {srepr(exp_keys[i])}")
             return
         for s in (sub, val):
             if len(doms) == 1:
@@ -498,7 +522,7 @@ def check_iface(ctx, fail, obj, doms, cells, labeling, where):
             else:
                 bad = (not is_table(s)) or table_matches(s, doms[1:], block, labeling) is not None
             if bad:
-                fail("items", f"{where}: items()/values() entry under {k!r} is not the sub-table / cell of that key")
+                fail("items", f"{where}: items()/values() entry under {srepr(k)} is not the sub-table / cell of that key")
                 return
     # policy rows
     if len(doms) == 2 and type(obj).__name__ == "TabularPolicy":
@@ -507,13 +531,13 @@ def check_iface(ctx, fail, obj, doms, cells, labeling, where):
             st, row = call(lambda: obj.action_dist(k))
             ctx.evaluations += 1
             if st == "err":
-                fail("action_dist", f"{where}: action_dist({k!r}) raised {type(row).__name__}")
+                fail("action_dist", f"{where}: action_dist({srepr(k)}) raised {type(row).__name__}")
                 return
-            check_dist(ctx, fail, row, doms[1], cells[i * inner:(i + 1) * inner], labeling, f"{where} action_dist({k!r})")
+            check_dist(ctx, fail, row, doms[1], cells[i * inner:(i + 1) * inner], labeling, f"{where} action_dist({srepr(k)})")
         st, e = call(lambda: obj.action_dist(lab(FA, labeling)))
         ctx.evaluations += 1
         if st == "ok":
-            fail("action_dist-no-error", f"{where}: action_dist(foreign state) returned {e!r}")
+            fail("action_dist-no-error", f"{where}: action_dist(foreign state) returned a value")
         elif not isinstance(e, StateActionIndexError):
             fail("action_dist-wrong-error-class", f"{where}: action_dist(foreign state) raised {type(e).__name__}")
 
@@ -540,8 +564,8 @@ def judge_transition(ctx, table, state, tr, obj, root_names, objcls, labeling, c
             # iteration / distribution interface of the returned sub-table: not a matter of the selector shape
             sig = f"C12:{viewcls}.{kind}:{'row' if kind == 'dist' else 'sub-table'}"
         ctx.violation(sig,
-                      f"[{kind}] {viewcls}[{pysel!r}] (root {objcls}, chain of {len(state['hist'])}) on domains "
-                      f"{[[conc(v, labeling) for v in d] for d in state['doms']]}: {what}", case)
+                      f"[{kind}] {viewcls}[{srepr(pysel)}] (root {objcls}, chain of {len(state['hist'])}) on domains "
+                      f"{srepr([[conc(v, labeling) for v in d] for d in state['doms']])}: {what}", case)
 
     st, r = call(lambda: obj[pysel])
     ctx.evaluations += 1
@@ -553,7 +577,7 @@ def judge_transition(ctx, table, state, tr, obj, root_names, objcls, labeling, c
     if strict:
         if tr["ost"] == "err":
             if st == "ok":
-                fail("no-error", f"a key outside the domain returned {r!r} instead of raising")
+                fail("no-error", f"a key outside the domain returned {str(r)[:100]} instead of raising")
             elif tr["foreign"] and is_mdp and family(r) != "SAIE":
                 fail("wrong-error-class", f"foreign key raised {type(r).__name__} instead of StateActionIndexError")
         elif st == "err":
@@ -564,7 +588,7 @@ def judge_transition(ctx, table, state, tr, obj, root_names, objcls, labeling, c
             elif not num_eq(r, tr["ocells"][0]):
                 fail("wrong-cells", f"cell {r!r} expected {tr['ocells'][0]}")
         elif not is_table(r):
-            fail("wrong-kind", f"expected a sub-table over {tr['odoms']}, got {r!r}")
+            fail("wrong-kind", f"expected a sub-table over {tr['odoms']}, got {str(r)[:100]}")
         else:
             bad = table_matches(r, tr["odoms"], tr["ocells"], labeling, tr["_expo"])
             matched_o = bad is None
@@ -619,10 +643,10 @@ def judge_transition(ctx, table, state, tr, obj, root_names, objcls, labeling, c
             else:
                 same = (st2 == "ok" and g is not sentinel and not tr["odoms"] and num_eq(g, tr["ocells"][0])) or not agreed[0]
             if not same:
-                fail("get-differs", f"get() gave {g!r} where [] gave {r!r}", method="get")
+                fail("get-differs", f"get() gave {str(g)[:80]} where [] gave {str(r)[:80]}", method="get")
         elif st == "err" and strict:
             if st2 == "ok" and g is not sentinel:
-                fail("get-no-error", f"get() returned {g!r} for a key on which [] raises", method="get")
+                fail("get-no-error", f"get() returned {str(g)[:80]} for a key on which [] raises", method="get")
             elif isinstance(r, KeyError) and not (st2 == "ok" and g is sentinel):
                 ctx.drift("get-default", {"cls": viewcls, "shape": shape, "got": repr(g)[:80]})
     return agreed[0]
@@ -632,6 +656,8 @@ def combos_for(tid, nf):
     out = []
     for ci, cls in enumerate(CLASSES[nf]):
         out.append((cls, LABELINGS[(tid + ci) % len(LABELINGS)], "list" if (tid + ci) % 2 == 0 else "tuple"))
+    for ci, cls in enumerate({1: ["StateTable"], 2: ["StateActionTable", "TabularPolicy"], 3: []}[nf]):
+        out.append((cls, LABELINGS[(tid + ci + 2) % len(LABELINGS)], "dict"))
     return out
 
 
@@ -663,10 +689,29 @@ def judge_table(ctx, table, tid, states, combos, *, mutate=None, build_hook=None
     """Replay every state's chain on the real objects and execute every transition out of it."""
     for cls, labeling, cname in combos:
         container = list if cname == "list" else tuple
-        root = (build_hook or build)(cls, table["doms"], labeling, container)
+        if cname == "dict":
+            root = build_from_dict(cls, table["doms"], labeling)
+        else:
+            root = (build_hook or build)(cls, table["doms"], labeling, container)
         root_names = list(root.table_index.field_names)
         for state in states:
             if only_state is not None and state is not only_state:
+                continue
+            if cname == "dict":
+                # the field order of the domains is the code's choice: only the root, and only transitions whose
+                # result does not depend on it (cells and errors), are comparable
+                if state["hist"]:
+                    continue
+                for tr in state["trans"]:
+                    if only_sel is not None and tr["_key"] != only_sel:
+                        continue
+                    # (a tuple component made of domain elements may equal the whole domain in the code's order)
+                    if tr["strict"] and (tr["ost"] == "err" or not tr["odoms"]) and "T" not in tr["cls"] and "W" not in tr["cls"]:
+                        state["get_mod"], state["iface_mod"] = 3, 5
+                        ok = judge_transition(ctx, table, state, tr, root, root_names, cls, labeling, cname, mutate=mutate)
+                        tr["_ok"] = tr.get("_ok", True) and ok
+                        tr["_ran"] = True
+                        ctx.count("from_dict_transitions")
                 continue
             state["get_mod"] = 1 if only_sel is not None else 3
             state["iface_mod"] = 1 if only_sel is not None else 5
